@@ -207,6 +207,7 @@ type driven struct {
 	// server answered with its own SERVFAIL instead; wire is that SERVFAIL.
 	fallback bool
 	badWire  string // framing problem seen on the connection
+	closed   bool   // the server closed the connection
 }
 
 // drive pushes reqWire through the real serving code of transport t with a
@@ -218,6 +219,7 @@ func (sv *servers) drive(t string, cfgMax uint16, idleMs int, reqWire []byte, re
 func (sv *servers) driveMode(mode, t string, cfgMax uint16, idleMs int, reqWire []byte, resp *dns.Msg) (d driven) {
 	sv.cur, sv.writeErr, sv.mode, sv.called = resp, nil, mode, false
 	sk := &sink{}
+	defer func() { d.closed = sk.closed }()
 	switch t {
 	case "udp":
 		s := sv.get(t, cfgMax, idleMs).(*dnsserver.ServerDNS)
@@ -519,6 +521,9 @@ type tcase struct {
 	tag    string
 	// doh is the way into the DoH server (see servers.doh); "" is POST.
 	doh string
+	// keepQ: the handler's response keeps the question section it was built
+	// with (none, another spelling, two questions) instead of the request's.
+	keepQ bool
 }
 
 type pending struct {
@@ -545,6 +550,13 @@ type runner struct {
 	// e2e: the case being judged went through the real DNSCrypt library and
 	// what is judged is what the client decrypted.
 	e2e bool
+	// curHandlerOPTs is the number of OPT records in the handler's response of
+	// the case being judged (0 for server-made responses).
+	curHandlerOPTs int
+	// curFits: the handler's response, compressed, with the OPT record it
+	// leaves with (options the server appended after truncation not counted),
+	// is known to fit the limit; -1 unknown, 0 no, 1 yes.
+	curFits int
 	// curTsigExempt: the handler response of the case being judged is one that
 	// Msg.Truncate refuses to touch (TSIG last).
 	curTsigExempt bool
@@ -670,7 +682,9 @@ func (x *runner) run(c tcase) {
 	}
 	reqOpt := viewOpt(reqSeen.IsEdns0())
 	resp := c.resp
-	resp.Question = reqSeen.Question
+	if !c.keepQ {
+		resp.Question = reqSeen.Question
+	}
 	resp.Response = true
 	hOpt := viewOpt(resp.IsEdns0())
 	// Msg.Pack overwrites the extended-rcode byte of the OPT record with the
@@ -682,6 +696,20 @@ func (x *runner) run(c tcase) {
 	nAns, nNs, nExtra := len(resp.Answer), len(resp.Ns), len(noOPT(resp.Extra))
 	tc0 := resp.Truncated
 	hTotal := z.q + sum(z.ans) + sum(z.ns) + sum(z.extra)
+	// For the "dropped only when it must be" check: the library's own figure for
+	// the whole handler response, compressed, with the OPT record it will carry
+	// when it is measured against the limit (its own, or the synthesised one
+	// with the reflected NSID / EXPIRE options).
+	handlerOPTs := countOPT(resp.Extra)
+	candLen := func() int {
+		m := &dns.Msg{MsgHdr: resp.MsgHdr, Compress: true, Question: resp.Question, Answer: resp.Answer, Ns: resp.Ns, Extra: resp.Extra}
+		n := m.Len()
+		if reqOpt.Present && !hOpt.Present {
+			n += expectedOptLen(reqSeen, nil)
+		}
+
+		return n
+	}()
 
 	var d driven
 	func() {
@@ -766,9 +794,20 @@ func (x *runner) run(c tcase) {
 
 	// ---- property oracle, on the bytes that left the server --------------
 	x.curTsigExempt = tsig && !(reqOpt.Present && !hOpt.Present)
-	defer func() { x.curTsigExempt = false }()
+	x.curHandlerOPTs, x.curFits = handlerOPTs, 0
+	margin := 0
+	if candLen >= 16000 {
+		// beyond offset 16383 names are no compression targets; the OPT record is
+		// measured at the end whatever its place: leave room for the difference
+		margin = 64
+	}
+	if !tc0 && candLen <= lim-margin {
+		x.curFits = 1
+		r.Count("resp.fits-as-it-is")
+	}
+	defer func() { x.curTsigExempt, x.curHandlerOPTs, x.curFits = false, 0, 0 }()
 	if d.fallback {
-		x.curTsigExempt = false
+		x.curTsigExempt, x.curHandlerOPTs, x.curFits = false, 0, 0
 		// The writer refused the handler's response; what reached the client is
 		// the server's own SERVFAIL.  Judge that message on its own.
 		r.Count("outcome.refused-then-servfail")
@@ -1024,6 +1063,20 @@ func (x *runner) oracle(c tcase, d driven, reqOpt, hOpt optView, nAns, nNs, nExt
 		}
 	}
 
+	// 3b. exactly one OPT record comes back: the server never adds a second one
+	// next to the handler's (RFC 6891 6.1.1: a message carries at most one).
+	if n := countOPT(w.Extra); reqOpt.Present && n > max(1, x.curHandlerOPTs) {
+		r.Violate("opt-duplicated", fmt.Sprintf("%s: the response carries %d OPT records, the handler's response had %d", c.t, n, x.curHandlerOPTs), rp())
+	}
+
+	// 2b. records are dropped only when they must be: a response that fits the
+	// limit as it is (compressed, with the OPT record it finally carries) and
+	// had TC clear must arrive whole.  Not judged after the DNSCrypt library's
+	// own truncation (which cuts at the limit minus 64).
+	if dropped && x.curFits == 1 && !x.e2e {
+		r.Violate("dropped-although-fits", fmt.Sprintf("%s: records dropped (%d/%d/%d of %d/%d/%d left) from a response that fits the limit %d", c.t, wAns, wNs, wExtra, nAns, nNs, nExtra, lim), rp())
+	}
+
 	// 4. padding only on encrypted transports and only when asked for
 	if !eqInts(wOpt.lens(dns.EDNS0PADDING), hOpt.lens(dns.EDNS0PADDING)) {
 		switch {
@@ -1107,8 +1160,88 @@ func genRR(rng *rand.Rand, qname string, class int) dns.RR {
 		}
 	case 1:
 		return &dns.TXT{Hdr: h(dns.TypeTXT), Txt: txtStrings(20 + rng.IntN(400))}
+	case 3:
+		return genOddRR(rng, owner)
 	default:
 		return &dns.TXT{Hdr: h(dns.TypeTXT), Txt: txtStrings(800 + rng.IntN(3200))}
+	}
+}
+
+// oddNames are legal names the library has to escape, fold or leave alone:
+// mixed case (compression is case-sensitive), escaped dots and bytes, the
+// root, a wildcard, an underscore label, a maximal label.
+var oddNames = []string{"Example.ORG.", "A.B.C.EXAMPLE.ORG.", `a\.b.example.org.`, `\097\098c.example.org.`, `sp\032ace.example.org.`,
+	"*.example.org.", "_dns.example.org.", `\000.example.org.`, ".", `tab\009.x.`, `a\\b.example.org.`, `q\"uote.example.org.`,
+	strings.Repeat("y", 63) + ".example.org.", "example.org.", "www.cdn.example.net."}
+
+// genOddRR makes a record of a type (or with names) the plain generator never
+// produces: name-carrying rdata that may or may not be compressed, SVCB
+// parameters, DNSSEC records with bitmaps and base64 fields, unknown types.
+func genOddRR(rng *rand.Rand, owner string) dns.RR {
+	nm := func() string { return oddNames[rng.IntN(len(oddNames))] }
+	if rng.IntN(2) == 0 {
+		owner = nm()
+	}
+	h := func(t uint16) dns.RR_Header {
+		return dns.RR_Header{Name: owner, Rrtype: t, Class: dns.ClassINET, Ttl: uint32(rng.IntN(4000))}
+	}
+	switch rng.IntN(20) {
+	case 0:
+		return &dns.CNAME{Hdr: h(dns.TypeCNAME), Target: nm()}
+	case 1:
+		return &dns.SRV{Hdr: h(dns.TypeSRV), Priority: 1, Weight: 2, Port: 853, Target: nm()}
+	case 2:
+		return &dns.PTR{Hdr: h(dns.TypePTR), Ptr: nm()}
+	case 3:
+		v := &dns.HTTPS{SVCB: dns.SVCB{Hdr: h(dns.TypeHTTPS), Priority: 1, Target: nm()}}
+		if rng.IntN(2) == 0 {
+			v.Value = append(v.Value, &dns.SVCBAlpn{Alpn: []string{"h2", "h3"}})
+		}
+		if rng.IntN(2) == 0 {
+			v.Value = append(v.Value, &dns.SVCBIPv4Hint{Hint: []net.IP{net.IPv4(192, 0, 2, 1)}})
+		}
+		if rng.IntN(3) == 0 {
+			v.Value = append(v.Value, &dns.SVCBECHConfig{ECH: make([]byte, rng.IntN(80))})
+		}
+		if rng.IntN(3) == 0 {
+			v.Value = append(v.Value, &dns.SVCBDoHPath{Template: "/dns-query{?dns}"})
+		}
+
+		return v
+	case 4:
+		return &dns.SVCB{Hdr: h(dns.TypeSVCB), Priority: 0, Target: nm()}
+	case 5:
+		return &dns.RRSIG{Hdr: h(dns.TypeRRSIG), TypeCovered: dns.TypeA, Algorithm: 13, Labels: 2, OrigTtl: 300, Expiration: 1, Inception: 2,
+			KeyTag: 3, SignerName: nm(), Signature: "c2lnbmF0dXJlc2lnbmF0dXJl"}
+	case 6:
+		return &dns.NSEC{Hdr: h(dns.TypeNSEC), NextDomain: nm(), TypeBitMap: []uint16{1, 2, 28, 46, 47, 257, 65280}[:1+rng.IntN(7)]}
+	case 7:
+		return &dns.NSEC3{Hdr: h(dns.TypeNSEC3), Hash: 1, Iterations: 1, SaltLength: 2, Salt: "abcd", HashLength: 20,
+			NextDomain: "0P9MHAVEQVM6T7VBL5LOP2U3T2RP3TOM", TypeBitMap: []uint16{1, 2}}
+	case 8:
+		return &dns.DNSKEY{Hdr: h(dns.TypeDNSKEY), Flags: 257, Protocol: 3, Algorithm: 13, PublicKey: "a2V5a2V5a2V5a2V5"}
+	case 9:
+		return &dns.DS{Hdr: h(dns.TypeDS), KeyTag: 1, Algorithm: 13, DigestType: 2, Digest: strings.Repeat("ab", 32)}
+	case 10:
+		return &dns.NAPTR{Hdr: h(dns.TypeNAPTR), Order: 1, Preference: 2, Flags: "U", Service: "E2U+sip", Regexp: "!^.*$!sip:info@example.com!", Replacement: nm()}
+	case 11:
+		return &dns.RFC3597{Hdr: h(65280), Rdata: strings.Repeat("ab", rng.IntN(40))}
+	case 12:
+		return &dns.CAA{Hdr: h(dns.TypeCAA), Tag: "issue", Value: `let\"s\\encrypt.org`}
+	case 13:
+		return &dns.DNAME{Hdr: h(dns.TypeDNAME), Target: nm()}
+	case 14:
+		return &dns.HINFO{Hdr: h(dns.TypeHINFO), Cpu: `RFC8482\032x`, Os: ""}
+	case 15:
+		return &dns.RP{Hdr: h(dns.TypeRP), Mbox: nm(), Txt: nm()}
+	case 16:
+		return &dns.MINFO{Hdr: h(dns.TypeMINFO), Rmail: nm(), Email: nm()}
+	case 17:
+		return &dns.TXT{Hdr: h(dns.TypeTXT), Txt: []string{strings.Repeat("t", rng.IntN(250)), `a\"b\\c\010`, ""}[:1+rng.IntN(3)]}
+	case 18:
+		return &dns.SOA{Hdr: h(dns.TypeSOA), Ns: nm(), Mbox: nm(), Serial: 1, Refresh: 2, Retry: 3, Expire: 4, Minttl: 5}
+	default:
+		return &dns.TLSA{Hdr: h(dns.TypeTLSA), Usage: 3, Selector: 1, MatchingType: 1, Certificate: strings.Repeat("ab", 32)}
 	}
 }
 
@@ -1311,13 +1444,20 @@ func genResp(rng *rand.Rand, req *dns.Msg, own *dns.OPT, target int, compressedT
 	if wa+wn+we == 0 {
 		wa = 1
 	}
+	// one response in three made of small records draws them from the odd
+	// types and names instead
+	rrClass := class
+	lastGenOdd = false
+	if class == 0 && rng.IntN(3) == 0 {
+		rrClass, lastGenOdd = 3, true
+	}
 	var rrs []dns.RR
 	sz := cur()
 	for sz < body-300-class*class*1100 && len(rrs) < 7000 {
-		rr := genRR(rng, qname, class)
+		rr := genRR(rng, qname, rrClass)
 		rrs = append(rrs, rr)
 		sz += dns.Len(rr)
-		if len(rrs)%64 == 0 || class > 0 {
+		if len(rrs)%64 == 0 || class > 0 || (rrClass == 3 && len(rrs)%8 == 0) {
 			// resynchronise with the library's own figure now and then
 			resp.Answer = rrs
 			sz = cur()
@@ -1394,6 +1534,42 @@ func (x *runner) limitFor(t string, cfgMax uint16, req *dns.Msg) int {
 	return x.limit(tcase{t: t, cfgMax: cfgMax}, v)
 }
 
+// oddRequest turns a generated query, now and then, into an unusual but legal
+// one: a question name in mixed case, a second OPT record in front of the
+// real one (Msg.IsEdns0 takes the last), an OPT record whose owner is not the
+// root.
+func (x *runner) oddRequest(rng *rand.Rand, req *dns.Msg) {
+	if rng.IntN(10) == 0 {
+		b := []byte(req.Question[0].Name)
+		for i := range b {
+			if b[i] >= 'a' && b[i] <= 'z' && rng.IntN(2) == 0 {
+				b[i] -= 32
+			}
+		}
+		req.Question[0].Name = string(b)
+		x.r.Count("req.qname-mixed-case")
+	}
+	o := req.IsEdns0()
+	if o == nil {
+		return
+	}
+	if rng.IntN(12) == 0 {
+		first := &dns.OPT{Hdr: dns.RR_Header{Name: ".", Rrtype: dns.TypeOPT}}
+		first.SetUDPSize(pick16(rng, ednsSizes))
+		first.Option = append(first.Option, &dns.EDNS0_PADDING{Padding: make([]byte, 7)},
+			&dns.EDNS0_TCP_KEEPALIVE{Code: dns.EDNS0TCPKEEPALIVE}, &dns.EDNS0_NSID{Code: dns.EDNS0NSID, Nsid: "abcd"})
+		req.Extra = append([]dns.RR{first}, req.Extra...)
+		x.r.Count("req.two-opt-records")
+	}
+	if rng.IntN(15) == 0 {
+		o.Hdr.Name = "opt.test."
+		x.r.Count("req.opt-owner-not-root")
+	}
+}
+
+// lastGenOdd: the last genResp call drew its records from the odd types.
+var lastGenOdd bool
+
 func (x *runner) randomCampaign(n int) {
 	rng := x.o.Rand("random")
 	for i := 0; i < n; i++ {
@@ -1435,9 +1611,38 @@ func (x *runner) randomCampaign(n int) {
 		}
 		target = min(target, 66500)
 		compressed := rng.IntN(2) == 0
+		wireForm := doh != "jsonwire" && doh != "json"
+		if wireForm {
+			x.oddRequest(rng, req)
+		}
 		resp := genResp(rng, req, own, target, compressed)
+		if lastGenOdd {
+			x.r.Count("resp.odd-record-types-and-names")
+		}
+		keepQ := false
+		if wireForm {
+			switch rng.IntN(14) {
+			case 0:
+				// e.g. a SERVFAIL made without the question
+				resp.Question, keepQ = nil, true
+				x.r.Count("resp.question.none")
+			case 1:
+				resp.Question = []dns.Question{{Name: strings.ToUpper(req.Question[0].Name), Qtype: req.Question[0].Qtype, Qclass: dns.ClassINET}}
+				keepQ = true
+				x.r.Count("resp.question.other-case")
+			case 2:
+				resp.Question = append([]dns.Question{req.Question[0]}, dns.Question{Name: "second." + qnames[rng.IntN(2)], Qtype: dns.TypeAAAA, Qclass: dns.ClassINET})
+				keepQ = true
+				x.r.Count("resp.question.two")
+			}
+		}
+		if rng.IntN(3) == 0 {
+			// the flag a handler leaves is overwritten by Truncate and normalize
+			resp.Compress = true
+			x.r.Count("resp.compress-flag-set")
+		}
 		x.r.Count("gen." + tag)
-		x.run(tcase{t: t, cfgMax: cfgMax, idleMs: idle, req: req, resp: resp, tag: fmt.Sprintf("random#%d/%s", i, tag), doh: doh})
+		x.run(tcase{t: t, cfgMax: cfgMax, idleMs: idle, req: req, resp: resp, tag: fmt.Sprintf("random#%d/%s", i, tag), doh: doh, keepQ: keepQ})
 	}
 	x.flush()
 }
@@ -1807,6 +2012,13 @@ func (x *runner) runServer(c tcase, kind, mode string) {
 	canon := fmt.Sprintf("%s cfg=%d idle=%d req[%s] hdr[%s] server-made/%s lim=%d", c.t, c.cfgMax, c.idleMs, reqLine(reqOpt), hdrLine(reqSeen), kind, lim)
 	x.oracle(c, driven{wire: sent, emitted: sent != nil}, reqOpt, optView{}, 0, 0, 0, lim, canon, rline)
 	r.Count("server-made." + kind)
+	if kind == "doq-keepalive" && c.t == "doq" {
+		r.Count("doq.keepalive-query")
+		if !d.closed || sent != nil {
+			r.Disagree("doq-keepalive-not-refused", fmt.Sprintf("doq: a query with edns-tcp-keepalive: connection closed=%v, %d bytes written", d.closed, len(sent)),
+				map[string]any{"case": canon})
+		}
+	}
 	if sent == nil {
 		r.Count("server-made.nothing-sent")
 	} else {
@@ -1828,7 +2040,7 @@ func (x *runner) runServer(c tcase, kind, mode string) {
 func (x *runner) serverMade() {
 	rng := x.o.Rand("server-made")
 	kinds := []string{"two-questions", "no-question", "opcode-status", "opcode-update", "opcode-notify", "response-bit",
-		"two-answers", "two-ns", "silent", "failed0", "failed1"}
+		"two-answers", "two-ns", "silent", "failed0", "failed1", "many-long-questions", "status-long-questions", "doq-keepalive"}
 	reps := 1
 	if x.o.Thorough() {
 		reps = 6
@@ -1873,7 +2085,34 @@ func (x *runner) serverMade() {
 					rr := func(n string) dns.RR {
 						return &dns.A{Hdr: dns.RR_Header{Name: n, Rrtype: dns.TypeA, Class: dns.ClassINET, Ttl: 5}, A: net.IPv4(192, 0, 2, 9)}
 					}
+					longQ := func(i int) dns.Question {
+						l := strings.Repeat(string(rune('a'+i)), 60)
+						return dns.Question{Name: l + "." + l + "." + l + "." + l[:50] + ".test.", Qtype: dns.TypeTXT, Qclass: dns.ClassINET}
+					}
 					switch kind {
+					case "many-long-questions":
+						// a question section of more than 512 bytes: the FORMERR must still fit
+						for i := 0; i < 2+rng.IntN(3); i++ {
+							req.Question = append(req.Question, longQ(i))
+						}
+					case "status-long-questions":
+						req.Opcode = dns.OpcodeStatus
+						req.Question = []dns.Question{longQ(0), longQ(1), longQ(2)}
+					case "doq-keepalive":
+						// RFC 9250 5.5.2: protocol error over DoQ; elsewhere an ordinary query
+						// the handler stays silent about
+						mode = "silent"
+						if o := req.IsEdns0(); o != nil {
+							o.Option = append(o.Option, &dns.EDNS0_TCP_KEEPALIVE{Code: dns.EDNS0TCPKEEPALIVE, Timeout: uint16(rng.IntN(2) * 300)})
+						} else {
+							o = &dns.OPT{Hdr: dns.RR_Header{Name: ".", Rrtype: dns.TypeOPT}, Option: []dns.EDNS0{&dns.EDNS0_TCP_KEEPALIVE{Code: dns.EDNS0TCPKEEPALIVE}}}
+							o.SetUDPSize(1232)
+							req.Extra = append(req.Extra, o)
+						}
+						if t == "doq" {
+							// the handler must not even be reached
+							mode = "wrote"
+						}
 					case "two-questions":
 						req.Question = append(req.Question, second)
 					case "no-question":
@@ -2010,20 +2249,24 @@ func (x *runner) dnscryptE2E() {
 		adv        int // -1: no OPT
 		target     int
 		compressed bool
+		// answersOnly: every record of the response goes to the answer section
+		// (the deterministic replay of dnscrypt-tcp-truncated-with-answers)
+		answersOnly bool
 	}
 	var cases []e2eCase
+	cases = append(cases, e2eCase{"dct", -1, 65520, true, true}, e2eCase{"dct", 1232, 65500, true, true})
 	for _, adv := range []int{-1, 0, 512, 600, 1232, 4096} {
 		lim := max(512, adv)
 		for _, d := range []int{-70, -66, -65, -64, -63, -62, -30, -1, 0, 1, 40, 700} {
 			for _, comp := range []bool{false, true} {
-				cases = append(cases, e2eCase{"dcu", adv, lim + d, comp})
+				cases = append(cases, e2eCase{t: "dcu", adv: adv, target: lim + d, compressed: comp})
 			}
 		}
-		cases = append(cases, e2eCase{"dcu", adv, 100, true}, e2eCase{"dct", adv, 100 + rng.IntN(3000), false})
+		cases = append(cases, e2eCase{t: "dcu", adv: adv, target: 100, compressed: true}, e2eCase{t: "dct", adv: adv, target: 100 + rng.IntN(3000)})
 	}
 	for _, target := range []int{65300, 65460, 65469, 65470, 65471, 65472, 65473, 65500, 65534, 65535, 65536, 65600} {
 		for _, adv := range []int{-1, 1232} {
-			cases = append(cases, e2eCase{"dct", adv, target, false})
+			cases = append(cases, e2eCase{t: "dct", adv: adv, target: target})
 		}
 	}
 	extra := 40
@@ -2033,9 +2276,9 @@ func (x *runner) dnscryptE2E() {
 	for i := 0; i < extra; i++ {
 		adv := []int{-1, 0, 512, 1232, 1452, 4096}[rng.IntN(6)]
 		if rng.IntN(4) == 0 {
-			cases = append(cases, e2eCase{"dct", adv, []int{200, 3000, 65400, 65471, 65480, 65520}[rng.IntN(6)] + rng.IntN(30), rng.IntN(2) == 0})
+			cases = append(cases, e2eCase{t: "dct", adv: adv, target: []int{200, 3000, 65400, 65471, 65480, 65520}[rng.IntN(6)] + rng.IntN(30), compressed: rng.IntN(2) == 0})
 		} else {
-			cases = append(cases, e2eCase{"dcu", adv, max(60, max(512, adv)-64+rng.IntN(140)-70), rng.IntN(2) == 0})
+			cases = append(cases, e2eCase{t: "dcu", adv: adv, target: max(60, max(512, adv)-64+rng.IntN(140)-70), compressed: rng.IntN(2) == 0})
 		}
 	}
 
@@ -2068,6 +2311,16 @@ func (x *runner) dnscryptE2E() {
 		if resp.IsTsig() != nil {
 			resp.Extra = resp.Extra[:len(resp.Extra)-1]
 		}
+		if ec.answersOnly {
+			resp.Truncated = false
+			resp.Answer = append(append(resp.Answer, resp.Ns...), noOPT(resp.Extra)...)
+			resp.Ns = nil
+			if o := resp.IsEdns0(); o != nil {
+				resp.Extra = []dns.RR{o}
+			} else {
+				resp.Extra = nil
+			}
+		}
 		reqWire, perr := req.Pack()
 		if perr != nil {
 			continue
@@ -2077,6 +2330,7 @@ func (x *runner) dnscryptE2E() {
 		reqOpt := viewOpt(reqSeen.IsEdns0())
 		resp.Question, resp.Response = reqSeen.Question, true
 		hOpt := viewOpt(resp.IsEdns0())
+		hOPTs := countOPT(resp.Extra)
 		nAns, nNs, nExtra := len(resp.Answer), len(resp.Ns), len(noOPT(resp.Extra))
 		c := tcase{t: ec.t, cfgMax: 65535, req: req, resp: resp, tag: fmt.Sprintf("dnscrypt-e2e#%d/%s/adv=%d/target=%d/c=%v", i, ec.t, ec.adv, ec.target, ec.compressed)}
 		lim := x.limit(c, reqOpt)
@@ -2150,7 +2404,10 @@ func (x *runner) dnscryptE2E() {
 		case n >= -16:
 			r.Count("dnscrypt-e2e.within-16-below-library-limit")
 		}
-		x.curTsigExempt = false
+		if ec.answersOnly && os.Getenv("C08_DEBUG") != "" {
+			fmt.Fprintf(os.Stderr, "answersOnly: nAns=%d final=%d plain=%d\n", nAns, len(final), len(plain))
+		}
+		x.curTsigExempt, x.curHandlerOPTs, x.curFits = false, hOPTs, -1
 		x.oracle(c, driven{wire: plain, emitted: true}, reqOpt, hOpt, nAns, nNs, nExtra, lim, canon, "")
 		w := &dns.Msg{}
 		if w.Unpack(plain) == nil {
@@ -2201,9 +2458,9 @@ func main() {
 	x.serverMade()
 	x.boundaryCampaign()
 	x.dnscryptE2E()
-	n := 3500
+	n := 6000
 	if o.Thorough() {
-		n = 30000
+		n = 60000
 		x.exhaustiveGrid()
 	}
 	x.randomCampaign(n)
